@@ -57,6 +57,9 @@ def _shapes(run, g, np, n):
     return valid
 
 
+LONGNAMES = [["x", "a"], ["tenexp", "log10_abs"], []]          # chains only: 128 trees at n = 7
+
+
 def _labelled(run, g, np, s_dir, basis, n, again=False):
     name = bases.name_of(basis)
     res = tlc.must(tlc.run("Trees", "Trees_label.cfg", constants=bases.tla_consts(basis, n), workers=1, heap="8g"),
@@ -128,12 +131,14 @@ def run(tier, replay=None):
         plan += [(b, 3) for b in bases.sub_bases()[::3]]
         plan += [(b, n) for b in bases.arith_bases() for n in (1, 3, 5)]
         plan += [(bases.USER_STYLE["verif_ax"], 4)]
+        plan += [(LONGNAMES, 7)]          # label lists whose printed form is 70..90 characters (the writers' line-width handling)
     else:
         plan = [(S[k], n) for k in S for n in (1, 2, 3, 4)] + [(S["core_maths"], 5), (S["core_maths"], 6), (S["ext_maths"], 5),
                 (S["osc_maths"], 5), (S["base_e_maths"], 5), (S["base10_maths"], 5)]
         plan += [(b, n) for b in bases.sub_bases() for n in (2, 3, 4, 5)]
         plan += [(b, n) for b in bases.arith_bases() for n in (1, 2, 3, 5, 7)]
         plan += [(b, n) for b in bases.USER_STYLE.values() for n in (3, 4)]
+        plan += [(LONGNAMES, 7), (LONGNAMES, 8), ([["x", "a"], ["tenexp", "log10_abs"], ["-"]], 6)]
     for basis, n in plan:
         _labelled(r, g, np, s, basis, n)
         if basis == S["core_maths"] and n == 4:
